@@ -274,7 +274,13 @@ func evaluate(run *core.Run, name string, data, stored []byte, c evalCfg) {
 		if len(res.files) > 0 {
 			run.Count("tree-despite-reader-error")
 		}
-	} else if !isDir(c.entry) && c.entry != eReuse {
+	} else if isDir(c.entry) {
+		// a directory holding a file go/parser rejects must make ParseDir return an error
+		if parserErr != nil && res.err == nil {
+			run.Fail("c15/parse/no-error", prefix+"|syntax", "%s with %s: go/parser reports %v for x.go but ParseDir returned no error\ninput: %q", entryNames[c.entry], c.label, parserErr, clip(data))
+			return
+		}
+	} else if c.entry != eReuse {
 		// errors are reported through the error result: go/parser calls these bytes erroneous iff dst does
 		if parserErr != nil && res.err == nil {
 			run.Fail("c15/parse/no-error", prefix+"|syntax", "%s with %s: go/parser reports %v but the entry point returned no error\ninput: %q", entryNames[c.entry], c.label, parserErr, clip(data))
@@ -396,6 +402,9 @@ func parseVia(c evalCfg, src interface{}, data []byte) parseResult {
 			panic("harness: " + err.Error())
 		}
 		ioutil.WriteFile(filepath.Join(dir, "good.go"), []byte(goodFile), 0644)
+		// a later file of the same package that starts with blank lines (spacing must not leak
+		// from the end of one file into the start of the next)
+		ioutil.WriteFile(filepath.Join(dir, "z.go"), []byte("\n\n\npackage good\n\n// Z is last.\nvar Z = 1\n"), 0644)
 		var pkgs map[string]*dst.Package
 		if c.entry == eManagedParseDir {
 			pkgs, err = decorator.NewDecoratorWithImports(fset, LocalPath, goast.WithResolver(guess.WithMap(gen.Truth()))).ParseDir(dir, nil, c.mode)
